@@ -36,7 +36,7 @@ Qed.
 Definition wf_side (sc : side_cfg) : Prop :=
   (forall n, ene sc = Some n -> 0 < n) /\ (forall n, enu sc = Some n -> 0 < n) /\
   (forall n, ens sc = Some n -> 0 < n) /\ (forall n, sbs sc = Some n -> 0 < n) /\
-  slen sc = len (sidx sc) /\ 0 <= dslen sc.
+  (forall p, slen sc = len (sidx sc p)) /\ 0 <= dslen sc.
 
 Record WF (c : cfg) (mi : Z -> list Z) : Prop := {
   wf_B : 1 <= cB c;
@@ -45,6 +45,30 @@ Record WF (c : cfg) (mi : Z -> list Z) : Prop := {
   wf_iter : forall e, len (mi e) = cN c;
   wf_sides : Forall wf_side (sides c);
   wf_dsN : 0 <= dsN c }.
+
+(* what the constructor checks (Corollaries.ctor_ok) ... *)
+Definition cfg_ok (c : cfg) : Prop :=
+  1 <= cB c /\ cB c <= cN c /\
+  (forall d, cD c = Some d -> drop_last c = true /\ (exists m, d = m * cB c) /\ cB c <= d <= cN c) /\
+  Forall (fun sc => side_asserts sc = true) (sides c).
+(* ... and what it cannot check: the lengths the samplers and data sources report
+   are what their iterations yield (the property's domain) *)
+Definition env_ok (c : cfg) (mi : Z -> list Z) : Prop :=
+  (forall e, len (mi e) = cN c) /\
+  Forall (fun sc => (forall p, slen sc = len (sidx sc p)) /\ 0 <= dslen sc) (sides c) /\
+  0 <= dsN c.
+
+Lemma opt_pos_spec o : opt_pos o = true -> forall n, o = Some n -> 0 < n.
+Proof. intros H n ->. cbn in H. now apply Z.ltb_lt. Qed.
+
+Lemma WF_of_ok c mi : cfg_ok c -> env_ok c mi -> WF c mi.
+Proof.
+  intros (HB & HBN & HD & HS) (Hi & HE & Hds). constructor; auto.
+  rewrite Forall_forall in *. intros sc Hin. specialize (HS sc Hin). specialize (HE sc Hin).
+  unfold side_asserts in HS. rewrite !andb_true_iff in HS.
+  destruct HS as [[[[_ H1] H2] H3] H4]. destruct HE as [Hl Hd].
+  unfold wf_side. repeat split; auto; now apply opt_pos_spec.
+Qed.
 
 Section Geometry.
   Variables (c : cfg) (mi : Z -> list Z).
@@ -62,6 +86,19 @@ Section Geometry.
     - destruct (HD d eq_refl) as [_ [_ Hr]]. apply H. lia.
     - apply H. lia.
   Qed.
+
+  (* the "len(main_sampler) < batch size" adjustments of _training_loop are dead *)
+  Lemma loop_geom_eq : loop_geom c = (cB c, spe c).
+  Proof.
+    destruct W as [HB HBN HD _ _ _]. unfold loop_geom, spe.
+    destruct (drop_last c); [|reflexivity].
+    destruct (cD c) as [d|] eqn:ED; cbn [or_default].
+    - destruct (HD d eq_refl) as [_ [_ Hr]].
+      destruct (cN c <? d) eqn:E; [apply Z.ltb_lt in E; lia|]. reflexivity.
+    - destruct (cN c <? cB c) eqn:E; [apply Z.ltb_lt in E; lia|]. reflexivity.
+  Qed.
+  Lemma lB_eq : lB c = cB c. Proof. unfold lB. now rewrite loop_geom_eq. Qed.
+  Lemma lspe_eq : lspe c = spe c. Proof. unfold lspe. now rewrite loop_geom_eq. Qed.
 
   (* with drop_last an epoch consists of whole batches *)
   Lemma spe_upe_drop : drop_last c = true -> spe c = upe c * cB c.
